@@ -765,8 +765,8 @@ func c13Acquisitions(e *Env) {
 						if !isCmp {
 							return core.CondMatch{}
 						}
-						if k, isK := core.ConstInt(cmp.Y); isK && k == 0 && cmp.Op == token.EQL {
-							return core.CondMatch{Match: true, Branch: true}
+						if k, isK := core.ConstInt(cmp.Y); isK && k == 0 && (cmp.Op == token.EQL || cmp.Op == token.NEQ) {
+							return core.CondMatch{Match: true, Branch: cmp.Op == token.EQL}
 						}
 						return core.CondMatch{}
 					}); g {
@@ -778,12 +778,16 @@ func c13Acquisitions(e *Env) {
 			// the map has no sweep)
 			for _, i := range core.IfsOf(cb) {
 				cmp, isCmp := core.AsCmp(i.Cond)
-				if !isCmp || cmp.Op != token.EQL {
+				if !isCmp || (cmp.Op != token.EQL && cmp.Op != token.NEQ) {
 					continue
 				}
 				if k, isK := core.ConstInt(cmp.Y); !isK || k != 0 {
 					continue
 				}
+				if _, isLen := core.Unwrap(cmp.X).(*ssa.Call); isLen {
+					continue // len(queue) == 0, not the counter
+				}
+				zeroBranch := cmp.Op == token.EQL
 				guard := i
 				q := &core.PathQuery{Fn: cb, From: guard,
 					Target: func(in ssa.Instruction) bool {
@@ -794,7 +798,7 @@ func c13Acquisitions(e *Env) {
 						b, isC := core.ConstBool(core.RetVal(ret, 1))
 						return !isC || !b
 					},
-					EdgeOK: func(x *ssa.If, branch bool) bool { return x != guard || branch }}
+					EdgeOK: func(x *ssa.If, branch bool) bool { return x != guard || branch == zeroBranch }}
 				w := q.Find()
 				e.R.Check(w == nil, rule, "net/client/limitParallelRequests.LimitParallelRequests.releaseEndpoint:always-deleted-at-zero", e.pos(guard), "every path from counter == 0 returns delete=true", "with the in-flight counter at zero the queue entry can still be kept: "+e.trace(w))
 			}
